@@ -1,4 +1,6 @@
-CONSTANT Small = FALSE
+CONSTANTS
+  Small = FALSE
+  WithPid = FALSE
 SPECIFICATION Spec
 INVARIANT TargetIndependence
 INVARIANT OverrideEquivalence
